@@ -1,6 +1,7 @@
 import RedisGoModel.Exec.StringKeys
-import RedisGoModel.Exec.Set
 import RedisGoModel.Exec.Hash
+import RedisGoModel.Exec.List
+import RedisGoModel.Exec.Set
 /-! Command table and dispatch (`server.Manager.ExecCommand`: lower-cased command name, table lookup). -/
 namespace Exec
 open Resp (Reply Bytes)
@@ -8,6 +9,7 @@ open Resp (Reply Bytes)
 def cmdTable : List (String × Cmd) := stringKeyTable
   ++ setTable
   ++ hashTable
+  ++ listTable
 
 def lookupCmd (name : Bytes) : Option Cmd :=
   (cmdTable.find? fun p => ofStr p.1 == name).map (·.2)
